@@ -21,7 +21,9 @@ EXPLANATION = (
 )
 TRUSTED = ["abstract group contract GC incl. exact fixed-width scalar codec (C15 for the real groups)",
            "json.dumps/loads modelled as an opaque inverse pair on dictionaries of hex text"]
-ASSUMPTIONS = ["pw/id lengths from the stated sets; restore cycles k <= 3"]
+ASSUMPTIONS = ["pw/id lengths from the stated sets; restore cycles k <= 3",
+               "scalar codec on the real groups: shipped groups, custom groups with non-byte-aligned q and one custom group "
+               "with 257-byte scalars (big2052); wider custom groups are outside"]
 
 
 def jobs(tier):
